@@ -838,7 +838,8 @@ impl Model {
                             Some(p) => match self.breach_outcome(node, p, rpcs, true) {
                                 Ok(Outcome::Responded) => {
                                     let ptxid = p.compute_txid();
-                                    if !node.has_tx(&ptxid) {
+                                    let given_this_interval = self.recent_verdicts.get(&ptxid) == Some(&Verdict::Ok);
+                                    if !node.has_tx(&ptxid) && !given_this_interval {
                                         out.push(viol(
                                             "C02",
                                             "responded_without_node_having_penalty",
